@@ -8,6 +8,9 @@ pub enum Path {
     Ret,
     /// result written into a caller-supplied uninitialised buffer
     Buf,
+    /// result written into a caller-supplied buffer in a non-canonical physical layout (wrapped ring,
+    /// strided / reversed view), kind 1..=OutBuf::ALT_KINDS of the output container
+    BufAlt(u8),
 }
 
 pub const V1_FEATURE: [R1; 8] = [R1::Sum, R1::Mean, R1::Ewm, R1::Wma, R1::Std, R1::Var, R1::Skew, R1::Kurt];
@@ -74,17 +77,27 @@ macro_rules! go {
                 assert!(r.is_none(), "out-buffer form returned a container");
                 unsafe { buf.assume_init() }
             }
+            Path::BufAlt(k) => {
+                // pre-fill value: the first element of the returned form (any value of the output type will do)
+                let proto = $v.$f::<$O, $U>($($a),*);
+                let fill = move || unsafe { proto.uget(0) };
+                let vals = <$O as crate::outbuf::OutBuf<$U>>::alt_run($v.len(), k, &fill, |out: <$O as Vec1<$U>>::UninitRefMut<'_>| {
+                    let r = $v.$fto::<$O, $U>($($a,)* Some(out));
+                    assert!(r.is_none(), "out-buffer form returned a container");
+                });
+                <$O as Vec1<$U>>::collect_from_iter(vals.into_iter())
+            }
         }
     };
 }
 
 /// null-aware moments and weighted averages
-pub fn call_v1_feature<V, T, O, U>(f: R1, v: &V, w: usize, mp: Option<usize>, path: Path) -> O
+pub fn call_v1_feature<V, T, O, U: 'static>(f: R1, v: &V, w: usize, mp: Option<usize>, path: Path) -> O
 where
     V: Vec1View<T>,
     T: IsNone,
     T::Inner: Number,
-    O: Vec1<U>,
+    O: Vec1<U> + crate::outbuf::OutBuf<U>,
     f64: Cast<U>,
 {
     match f {
@@ -101,12 +114,12 @@ where
 }
 
 /// rolling extrema with value output (min / max): output element is cast from Option<Inner>
-pub fn call_v1_minmax<V, T, O, U>(f: R1, v: &V, w: usize, mp: Option<usize>, path: Path) -> O
+pub fn call_v1_minmax<V, T, O, U: 'static>(f: R1, v: &V, w: usize, mp: Option<usize>, path: Path) -> O
 where
     V: Vec1View<T>,
     T: IsNone,
     T::Inner: Number,
-    O: Vec1<U>,
+    O: Vec1<U> + crate::outbuf::OutBuf<U>,
     Option<T::Inner>: Cast<U>,
 {
     match f {
@@ -117,12 +130,12 @@ where
 }
 
 /// arg-extrema, rank, normalisations
-pub fn call_v1_cmp<V, T, O, U>(f: R1, v: &V, w: usize, mp: Option<usize>, path: Path) -> O
+pub fn call_v1_cmp<V, T, O, U: 'static>(f: R1, v: &V, w: usize, mp: Option<usize>, path: Path) -> O
 where
     V: Vec1View<T>,
     T: IsNone,
     T::Inner: Number,
-    O: Vec1<U>,
+    O: Vec1<U> + crate::outbuf::OutBuf<U>,
     f64: Cast<U>,
 {
     match f {
@@ -136,12 +149,12 @@ where
 }
 
 /// time-trend regressions
-pub fn call_v1_reg<V, T, O, U>(f: R1, v: &V, w: usize, mp: Option<usize>, path: Path) -> O
+pub fn call_v1_reg<V, T, O, U: 'static>(f: R1, v: &V, w: usize, mp: Option<usize>, path: Path) -> O
 where
     V: Vec1View<T>,
     T: IsNone,
     T::Inner: Number,
-    O: Vec1<U>,
+    O: Vec1<U> + crate::outbuf::OutBuf<U>,
     f64: Cast<U>,
 {
     match f {
@@ -155,12 +168,12 @@ where
 }
 
 /// any null-aware single-series entry point except fdiff
-pub fn call_v1<V, T, O, U>(f: R1, v: &V, w: usize, mp: Option<usize>, path: Path) -> O
+pub fn call_v1<V, T, O, U: 'static>(f: R1, v: &V, w: usize, mp: Option<usize>, path: Path) -> O
 where
     V: Vec1View<T>,
     T: IsNone,
     T::Inner: Number,
-    O: Vec1<U>,
+    O: Vec1<U> + crate::outbuf::OutBuf<U>,
     f64: Cast<U>,
     Option<T::Inner>: Cast<U>,
 {
@@ -176,13 +189,13 @@ where
 }
 
 /// null-aware fractional difference (needs slices that can be iterated)
-pub fn call_vfdiff<V, T, O, U>(d: f64, v: &V, w: usize, mp: Option<usize>, path: Path) -> O
+pub fn call_vfdiff<V, T, O, U: 'static>(d: f64, v: &V, w: usize, mp: Option<usize>, path: Path) -> O
 where
     V: Vec1View<T>,
     for<'a> V::SliceOutput<'a>: TIter<T>,
     T: IsNone,
     T::Inner: Number,
-    O: Vec1<U>,
+    O: Vec1<U> + crate::outbuf::OutBuf<U>,
     U: Clone,
     f64: Cast<U>,
 {
@@ -190,12 +203,12 @@ where
 }
 
 /// plain fractional difference (no min_periods)
-pub fn call_fdiff<V, T, O, U>(d: f64, v: &V, w: usize, path: Path) -> O
+pub fn call_fdiff<V, T, O, U: 'static>(d: f64, v: &V, w: usize, path: Path) -> O
 where
     V: Vec1View<T>,
     for<'a> V::SliceOutput<'a>: TIter<T>,
     T: Cast<f64> + Clone,
-    O: Vec1<U>,
+    O: Vec1<U> + crate::outbuf::OutBuf<U>,
     U: Clone,
     f64: Cast<U>,
 {
@@ -203,11 +216,11 @@ where
 }
 
 /// plain (null-unaware) single-series family
-pub fn call_p1<V, T, O, U>(f: R1, v: &V, w: usize, mp: Option<usize>, path: Path) -> O
+pub fn call_p1<V, T, O, U: 'static>(f: R1, v: &V, w: usize, mp: Option<usize>, path: Path) -> O
 where
     V: Vec1View<T>,
     T: Number,
-    O: Vec1<U>,
+    O: Vec1<U> + crate::outbuf::OutBuf<U>,
     f64: Cast<U>,
 {
     match f {
@@ -224,7 +237,7 @@ where
 }
 
 /// two-series family; `All` is handled by call_v2_all
-pub fn call_v2<V, T, V2, T2, O, U>(f: R2, a: &V, b: &V2, w: usize, mp: Option<usize>, path: Path) -> O
+pub fn call_v2<V, T, V2, T2, O, U: 'static>(f: R2, a: &V, b: &V2, w: usize, mp: Option<usize>, path: Path) -> O
 where
     V: Vec1View<T>,
     T: IsNone,
@@ -232,7 +245,7 @@ where
     V2: Vec1View<T2>,
     T2: IsNone,
     T2::Inner: Number,
-    O: Vec1<U>,
+    O: Vec1<U> + crate::outbuf::OutBuf<U>,
     f64: Cast<U>,
 {
     macro_rules! go2 {
@@ -244,6 +257,15 @@ where
                     let r = a.$fto::<O, U, V2, T2>(b, w, mp, Some(<O as Vec1<U>>::uninit_ref_mut(&mut buf)));
                     assert!(r.is_none());
                     unsafe { buf.assume_init() }
+                }
+                Path::BufAlt(k) => {
+                    let proto = a.$f::<O, U, V2, T2>(b, w, mp);
+                    let fill = move || unsafe { proto.uget(0) };
+                    let vals = <O as crate::outbuf::OutBuf<U>>::alt_run(a.len(), k, &fill, |out: <O as Vec1<U>>::UninitRefMut<'_>| {
+                        let r = a.$fto::<O, U, V2, T2>(b, w, mp, Some(out));
+                        assert!(r.is_none());
+                    });
+                    <O as Vec1<U>>::collect_from_iter(vals.into_iter())
                 }
             }
         };
@@ -260,7 +282,7 @@ where
     }
 }
 
-pub fn call_v2_all<V, T, V2, T2, O, U>(a: &V, b: &V2, w: usize, mp: Option<usize>) -> O
+pub fn call_v2_all<V, T, V2, T2, O, U: 'static>(a: &V, b: &V2, w: usize, mp: Option<usize>) -> O
 where
     V: Vec1View<T>,
     T: IsNone,
